@@ -301,7 +301,14 @@ class Built:
         self.desc = case['desc']
         ivals = [int(v) for v in (case.get('index_vals') or range(n))]
         pd_full = {'index': list(ivals), 'lab': list(labs)}
-        self.model_rdms = RDMs(basis.copy(), pattern_descriptors={k: list(v) for k, v in pd_full.items()},
+        held = basis.copy()
+        self.int_basis = bool(not case['nan_pairs'] and np.all(basis == np.round(basis))
+                              and np.abs(basis).max() < 2.0 ** 40 and (len(basis) + n) % 2 == 0)
+        if self.int_basis:
+            # integral basis RDMs (counts, rank codes, category models in large units) held in an
+            # integer array: the model RDMs keep the dtype they are given
+            held = held.astype(np.int64)
+        self.model_rdms = RDMs(held, pattern_descriptors={k: list(v) for k, v in pd_full.items()},
                                dissimilarity_measure='euclidean')
         # training sample: the full data restricted to the sorted selection (own construction)
         self.data_exp = ref.sample_rdm_vectors(data, n, list(range(len(data))), self.sidx)
@@ -739,6 +746,9 @@ def api_case(draw):
 def _build_model(case):
     kind, src, n = case['kind'], case['src'], case['n']
     vecs = np.array(case['vecs'], dtype=float)
+    if np.all(vecs == np.round(vecs)) and int(np.abs(vecs).sum()) % 2 == 0:
+        # integral model RDMs held in an integer (or, for 0/1 category models, boolean) array
+        vecs = vecs.astype(bool) if vecs.min() >= 0 and vecs.max() <= 1 else vecs.astype(np.int64)
     pd = {'lab': list(case['labels'])}
     if case.get('index_vals'):
         pd['index'] = [int(v) for v in case['index_vals']]
